@@ -76,6 +76,27 @@ def _work(job):
         return {"ok": False, "error": traceback.format_exc()}
 
 
+def _work_witness(job):
+    """The recorded witness schedule of one listed finding, re-run as it stands."""
+    _quiet()
+    from . import racedriver as rd
+    try:
+        wt = job["witness"]
+        tmpl = rd.Template(wt["kind"], {"a": 1})
+        try:
+            plan = [(w, None if n == -1 else n) for (w, n) in wt["plan"]]
+            oc = wt["ops"].get("C")
+            r = rd.run_schedule(tmpl, wt["ops"]["A"], wt["ops"]["B"], plan, shared=wt["shared"],
+                                opc=oc if oc and oc.get("t") != "none" else None)
+            r["pair"] = wt["pair"]
+            r["witness_of"] = job["dev"]
+        finally:
+            tmpl.close()
+        return {"ok": True, "runs": [r]}
+    except Exception:
+        return {"ok": False, "error": traceback.format_exc()}
+
+
 def _work_http(job):
     _quiet()
     from . import httprace
@@ -204,11 +225,14 @@ def run(prop, tier, seed, replay=None):
         rng.shuffle(hp)
         hp = hp[:6] if quick else hp[:60]
         hjobs = [{"pairs": [p], "stride": 2 if quick else 1} for p in hp]
+        # the witness schedule of every listed (open) finding, re-run as recorded
+        wjobs = [{"dev": d, "witness": e["witness"]} for d, e in sorted(devs.items()) if e.get("witness")]
         with multiprocessing.get_context("fork").Pool(15) as pool:
             outs = pool.map(_work, jobs, chunksize=1)
             houts = pool.map(_work_http, hjobs, chunksize=1)
+            wouts = pool.map(_work_witness, wjobs, chunksize=1)
         runs = []
-        for o in outs + houts:
+        for o in outs + houts + wouts:
             if not o["ok"]:
                 common.machinery_failure("harness exception:\n" + o["error"])
             runs.extend(o["runs"])
@@ -239,6 +263,21 @@ def run(prop, tier, seed, replay=None):
             rep.note("lock contention / a lost race surfaced as an exception (HTTP 500) instead of a 412/423 "
                      "answer: %s%s %s" % (r["kind"], " via HTTP" if r.get("level") == "http" else "", json.dumps(r["res"])))
     rep.notes = sorted(set(rep.notes))[:12]
+    seen_devs = {verdicts[r["id"]]["dev"] for r in runs if verdicts[r["id"]]["k"] == "known"}
+    if not replay:
+        for r in runs:
+            d = r.get("witness_of")
+            if d and verdicts[r["id"]]["dev"] != d:
+                rep.note("the witness schedule of listed finding %s no longer shows it (verdict now: %s)"
+                         % (d, verdicts[r["id"]]["clause"]))
+        first = {}
+        for r in runs:
+            v = verdicts[r["id"]]
+            if v["k"] in ("known", "viol") and v["dev"] not in first and r.get("level") != "http":
+                first[v["dev"]] = {"kind": r["kind"], "shared": r["shared"], "ops": r["ops"], "plan": r["plan"],
+                                   "pair": r["pair"]}
+        os.makedirs(os.path.join(common.OUT_DIR, "witness"), exist_ok=True)
+        json.dump(first, open(os.path.join(common.OUT_DIR, "witness", "Lin.json"), "w"), indent=1, sort_keys=True)
     for r in runs[:3]:
         samples.append({k: r[k] for k in ("kind", "shared", "ops", "plan", "res", "final")}
                        | {"gates": r["sched"][:40]})
